@@ -183,6 +183,7 @@ func Main(id, tier string) int {
 			}
 		}
 		b, _ := json.Marshal(dump)
+		os.MkdirAll(filepath.Dir(p), 0o755)
 		os.WriteFile(p, b, 0o644)
 	}
 	if total > 0 && chk.Custom == nil {
